@@ -14,6 +14,15 @@ CLAIMED = {
             "Pile/Columns/GridFlow contents against the same operators, one event per call.",
             "Trusted: TLC, PySlice.tla (list semantics), the call-through driver in vf/props/c16.py. Bounds in evidence.",
             "DESIGN.md §4 C16"),
+    "C14": ("TLA+ spec Signals.tla (emit as a multi-step process over a live handler list, scripted handler behaviours, weak-argument death) "
+            "model-checked by TLC against the emit contract; TLC trace validation (SignalsTrace.tla) of real urwid.signals executions driven by "
+            "TLC-simulated and random scripts",
+            "TLC explores every history of connect/disconnect/emit/collect with handlers that edit the list during an emit, within bounds, and shows "
+            "the dispatch as coded meets the contract (and that the contract refutes the pre-fix live-index dispatch); every recorded execution of the "
+            "real signal machinery is judged by the same contract operator, including argument order, NameError, weak-argument death and liveness of "
+            "senders/weak arguments after the harness drops them.",
+            "Trusted: TLC, the World harness in vf/props/c14.py, CPython refcounting for weak-argument death.",
+            "DESIGN.md §4 C14"),
 }
 
 NOT_APPLICABLE = {}
